@@ -22,6 +22,10 @@ func genC12(seed uint64, tier string) *Plan {
 	p.Cfg.CoalesceNanos = int64(time.Millisecond)
 	p.Cfg.Codec = r.Bool(0.5)
 	p.Tables = genSchema(r, u, SchemaOpts{MaxTables: 2, RetMin: 2 * time.Hour, RetMax: 4 * time.Hour, Partition: true})
+	if len(p.Tables) == 2 && r.Bool(0.5) {
+		// two tables that the leader groups together when a follower joins
+		p.Tables[1].PartitionBy = append([]string(nil), p.Tables[0].PartitionBy...)
+	}
 	for i := range p.Tables {
 		p.Tables[i].MinFlush = int64(PickOne(r, []time.Duration{50 * time.Millisecond, time.Second, 20 * time.Second}))
 		p.Tables[i].MaxFlush = p.Tables[i].MinFlush * int64(PickOne(r, []int{1, 5}))
@@ -77,6 +81,14 @@ func genC12(seed uint64, tier string) *Plan {
 			// the matching repair comes some ops later
 			switch f.K {
 			case "stop", "kill":
+				if f.S[0] == 'F' && r.Bool(0.35) {
+					// the node comes back while its link to a leader is down: it
+					// catches up only after a reconnect
+					l := leader()
+					p.Ops = append(p.Ops, Op{K: "cut", S: l, S2: f.S, Dt: 1000}, Op{K: "adv", Dt: int64(time.Second)}, Op{K: "start", S: f.S},
+						Op{K: "adv", Dt: PickOne(r, []int64{int64(3 * time.Second), int64(40 * time.Second)})}, Op{K: "heal", S: l, S2: f.S})
+					break
+				}
 				p.Ops = append(p.Ops, Op{K: "adv", Dt: PickOne(r, []int64{int64(time.Second), int64(8 * time.Second)})}, Op{K: "start", S: f.S})
 			case "replace":
 				p.Ops = append(p.Ops, Op{K: "adv", Dt: int64(time.Second)})
@@ -94,7 +106,7 @@ func genC12(seed uint64, tier string) *Plan {
 	o.Crosstab = false // (two recorded C10 findings)
 	o.DataSpan = span
 	p.Ops = append(p.Ops, Op{K: "check", Strs: genBattery(r, p, u, o, r.Range(2, 5))})
-	if r.Bool(0.3) || os.Getenv("ZSIM_FORCE_REAL") != "" {
+	if r.Bool(0.45) || os.Getenv("ZSIM_FORCE_REAL") != "" {
 		// world CR: whole servers over the simulated connection network
 		p.Cfg.Extra = map[string]int64{"real": 1}
 		p.World = "CR"
